@@ -6,7 +6,7 @@
    proved in proofs/OutcomeRoundTrip.v from the wire-level lemmas below. *)
 From stdpp Require Import gmap.
 From DS Require Import Base Decimal StreamValue Wire Sort Aggregators Outcome OutcomeCodec.
-From DS Require Import WireProofs StreamValueProofs OutcomeCodecProofs OutcomeRoundTrip.
+From DS Require Import WireProofs StreamValueProofs OutcomeCodecProofs OutcomeRoundTrip ReportsNoPanic DecodedWf.
 From DS Require CasesOutCodec.
 Open Scope Z_scope.
 
@@ -65,6 +65,17 @@ Theorem C10_reencode_stable : forall pver o bs o',
   outcome_wf o -> small bs -> encode_outcome pver o = Ok bs -> decode_outcome pver bs = Ok o' -> encode_outcome pver o' = Ok bs.
 Proof. exact reencode_stable. Qed.
 Print Assumptions C10_reencode_stable.
+
+(* ---- arbitrary bytes ----
+   whatever decodes is a well-formed outcome: ids uint32, times uint64, decimal scales int32, timestamped values nested
+   at most twice, stage string canonical; it re-encodes (version 1 always), and decoding that gives the same outcome *)
+Theorem C10_decoded_outcome_wf : forall pver bs o, decode_outcome pver bs = Ok o -> bok bs -> outcome_wf o.
+Proof. exact decoded_outcome_wf. Qed.
+Print Assumptions C10_decoded_outcome_wf.
+Theorem C10_decode_reencode_v1 : forall bs o, decode_outcome 1 bs = Ok o -> bok bs ->
+  exists bs', encode_outcome 1 o = Ok bs' /\ (small bs' -> decode_outcome 1 bs' = Ok o).
+Proof. exact decode_reencode_v1. Qed.
+Print Assumptions C10_decode_reencode_v1.
 
 (* canonical: each flattened slice is sorted by pairwise distinct ids, so the order in which the Go map was built
    or iterated cannot influence the bytes *)
